@@ -2,13 +2,18 @@
 //! Type-level half: the gate crate compiles only if the Send/Sync bounds hold (decided by rustc).
 //! Behavioural half: loom explores all interleavings (within a preemption bound) of threads
 //! evaluating one shared ruleset; driven from here as a child process.
-use crate::engine::report::{Acc, Report, Tier, Violation, VERIF_DIR};
+use crate::engine::report::{repo_dir, target_dir, verif_dir, Acc, Report, Tier, Violation};
 use serde_json::json;
 use std::process::Command;
 use std::time::{Duration, Instant};
 
 fn cargo(args: &[&str]) -> (bool, String) {
-    let out = Command::new("cargo").args(args).current_dir(format!("{VERIF_DIR}/mc")).env("CARGO_NET_OFFLINE", "true").output();
+    let mut cmd = Command::new("cargo");
+    cmd.args(args).current_dir(format!("{}/mc", verif_dir())).env("CARGO_NET_OFFLINE", "true").env("CARGO_TARGET_DIR", target_dir());
+    if repo_dir() != "/repo" {
+        cmd.arg("--config").arg(format!("paths=[\"{}\"]", repo_dir()));
+    }
+    let out = cmd.output();
     match out {
         Ok(o) => (o.status.success(), format!("{}{}", String::from_utf8_lossy(&o.stdout), String::from_utf8_lossy(&o.stderr))),
         Err(e) => (false, format!("cannot run cargo: {e}")),
@@ -57,7 +62,7 @@ fn scan_repo() -> Vec<String> {
         }
     }
     let mut files = Vec::new();
-    walk(std::path::Path::new("/repo/src"), &mut files);
+    walk(std::path::Path::new(&format!("{}/src", repo_dir())), &mut files);
     files.sort();
     for f in files {
         if let Ok(text) = std::fs::read_to_string(&f) {
@@ -120,7 +125,7 @@ pub fn run(tier: Tier) -> i32 {
     let mut sync_ops = 0u64;
     let mut covered = Vec::new();
     for (sc, bound, limit) in &scenarios {
-        let r = run_with_timeout(Command::new(format!("{VERIF_DIR}/target/release/c18loom")).arg(sc).arg(bound), Duration::from_secs(*limit));
+        let r = run_with_timeout(Command::new(format!("{}/release/c18loom", target_dir())).arg(sc).arg(bound), Duration::from_secs(*limit));
         match r {
             Err(m) => {
                 // a cap, not a verdict
@@ -191,7 +196,7 @@ pub fn replay(case: &serde_json::Value) -> i32 {
                 println!("{out}");
                 return 2;
             }
-            match run_with_timeout(Command::new(format!("{VERIF_DIR}/target/release/c18loom")).arg(sc).arg(b), Duration::from_secs(600)) {
+            match run_with_timeout(Command::new(format!("{}/release/c18loom", target_dir())).arg(sc).arg(b), Duration::from_secs(600)) {
                 Ok((_, text)) => {
                     println!("{text}");
                     if text.contains("\"violations\":[]") {
